@@ -27,8 +27,16 @@ EXPLANATION = (
     "store of the FileResult attributes in any method, from an os.stat made outside the code reachable from "
     "FileResult.did_upload (the values check_file saw before the upload, not a re-stat when it has finished), and "
     "BackerUpper.upload calls check_backupdb_file before it reads the file and reports did_upload to the result it got "
-    "before the PUT. "
-    "Undecided: SQLite semantics, os.stat granularity (a change that preserves size, mtime and ctime), sorting of "
+    "before the PUT; (7) a cap is recorded only when the grid said the operation succeeded: every path to "
+    "did_upload in BackerUpper.upload, and every path on which tahoe_backup.mkdir returns the response body that "
+    "upload_directory hands to did_create, passed a test establishing that the status of the very response the cap is "
+    "read from is a 2xx code (membership / equality with 2xx constants, or an upper bound below 300) - otherwise the "
+    "body of an error response is stored as the cap of the unchanged file / directory and reused by every later run. "
+    "Undecided: the t=check round trip of check_backupdb_file / check_backupdb_directory (should_check, HTTP status and "
+    "'healthy' of the check, did_check_healthy: whether a recorded cap is still retrievable is not part of the property), "
+    "durability (connection.commit() - an uncommitted record only causes a re-upload), whether a 2xx body really is a "
+    "cap, whether the directory mkdir creates from create_contents has the children that compare_contents was hashed "
+    "from (built by the caller, value-level), SQLite semantics, os.stat granularity (a change that preserves size, mtime and ctime), sorting of "
     "the directory entries (affects only how often a directory is re-created, not wrong reuse - planned clause "
     "dropped), probability arithmetic of should_check.")
 TECHNIQUE = "static analysis: CFG must-precede gates over provenance roles, SQL/schema table extraction, interprocedural role propagation"
@@ -529,6 +537,89 @@ def compare_roles(roles, fn, n, lab):
     return ("truth" if pol else "false", roles.role(fn, n, e), e)
 
 
+_MIRROR = {ast.Lt: ast.Gt, ast.LtE: ast.GtE, ast.Gt: ast.Lt, ast.GtE: ast.LtE}
+_NEGATE = {ast.Lt: ast.GtE, ast.LtE: ast.Gt, ast.Gt: ast.LtE, ast.GtE: ast.Lt}
+
+
+def http_success_edge(fl, folder, fn, n, lab, resp_call):
+    """Does leaving test node `n` by edge `lab` establish that the status of the response produced by the call
+    `resp_call` (identity of the AST node, through reaching definitions) is a 2xx code?  Accepted facts:
+    status in <2xx constants>, status == <2xx constant>, status < k / status <= k with 200 <= bound <= 299 (error
+    responses have status >= 300; the lower bound is not needed to exclude them)."""
+    if n.kind != "test" or not isinstance(lab, tuple):
+        return False
+
+    def holds(e, pol, hops=0):
+        """`e` evaluating to `pol` establishes the fact."""
+        if hops > 8:
+            return False
+        if isinstance(e, ast.UnaryOp) and isinstance(e.op, ast.Not):
+            return holds(e.operand, not pol, hops + 1)
+        if isinstance(e, ast.Name):
+            d = fl.resolve(n, e, depth=1)
+            return d is not e and holds(d, pol, hops + 1)
+        if isinstance(e, ast.BoolOp):
+            # (a and b) true / (a or b) false: every operand has that value, one establishing operand suffices;
+            # otherwise only one operand is known to have it: all of them must establish the fact
+            conj = isinstance(e.op, ast.And) == pol
+            return (any if conj else all)(holds(v, pol, hops + 1) for v in e.values)
+        if isinstance(e, ast.Compare):
+            return compare_holds(e, pol)
+        return False
+
+    def is_status(x):
+        x = fl.resolve(n, x)
+        return isinstance(x, ast.Attribute) and x.attr == "status" and fl.resolve(n, x.value) is resp_call
+
+    def ints(x):
+        try:
+            v = folder.fold(fl.resolve(n, x), fn.module, fn.cls)
+        except NotConstant:
+            return None
+        if isinstance(v, bool):
+            return None
+        if isinstance(v, int):
+            return [v]
+        if isinstance(v, (tuple, list, set, frozenset)) and v and all(isinstance(i, int) and not isinstance(i, bool) for i in v):
+            return list(v)
+        return None
+    ok2xx = lambda k: 200 <= k <= 299
+
+    def compare_holds(e, pol):
+        operands = [e.left] + list(e.comparators)
+        pairs = list(zip(operands[:-1], e.ops, operands[1:]))
+        if len(pairs) > 1 and not pol:
+            return False          # the negation of a chain is a disjunction: nothing is established
+        for (lhs, op, rhs) in pairs:
+            if is_status(lhs):
+                other, opt = rhs, type(op)
+            elif is_status(rhs) and type(op) in _MIRROR:
+                other, opt = lhs, _MIRROR[type(op)]
+            elif is_status(rhs) and isinstance(op, (ast.Eq, ast.NotEq)):
+                other, opt = lhs, type(op)
+            else:
+                continue
+            ks = ints(other)
+            if ks is None:
+                continue
+            if opt in (ast.In, ast.NotIn):
+                if (opt is ast.In) == pol and all(ok2xx(k) for k in ks):
+                    return True
+            elif len(ks) != 1:
+                continue
+            elif opt in (ast.Eq, ast.NotEq):
+                if (opt is ast.Eq) == pol and ok2xx(ks[0]):
+                    return True
+            elif opt in _NEGATE:
+                if not pol:
+                    opt = _NEGATE[opt]
+                bound = ks[0] - 1 if opt is ast.Lt else (ks[0] if opt is ast.LtE else None)
+                if bound is not None and ok2xx(bound):
+                    return True
+        return False
+    return holds(n.ast, lab[0] == "T")
+
+
 def run(ctx: Context):
     idx = ctx.idx
     roles = Roles(idx)
@@ -863,7 +954,15 @@ def run(ctx: Context):
                 rn = fnorm.norm(n, c.func.value)
                 r.require(re.match(r"^self\.%s\(.*\)\[1\]$" % checker, rn) is not None, fn, fn.loc(c),
                           "%s is reported to %s, not to the result object of %s" % (rec, rn, checker))
-            reuse = [(n, c) for n in cfg.find(is_return) for c in calls_at(n, probe)]
+            # the probe calls whose answer is returned (directly, or through temporaries), each at the node that makes it
+            reuse, seen_probe = [], set()
+            for n in cfg.find(is_return):
+                if n.ast.value is None:
+                    continue
+                for c in calls_feeding(fn, n.ast.value):
+                    if call_tail(c) == probe and isinstance(c.func, ast.Attribute) and id(c) not in seen_probe:
+                        seen_probe.add(id(c))
+                        reuse.append((roles.node_of(fn, c), c))
             r.require(bool(reuse), fn, fn.loc(), "%s never returns the cap recorded in the database" % meth)
             # the branch: reuse only when the checker said so
             def must(n, lab):
@@ -1031,3 +1130,79 @@ def run(ctx: Context):
                 r.violation(fn, fn.loc(dc), "did_upload is reached without the upload, or on a result that check_backupdb_file "
                             "produced after the content was sent: its size/mtime/ctime were observed after the upload "
                             "(path: %s)" % w.brief(), w)
+
+    # -- 7. only the body of a successful response is recorded as a cap -------
+    with ctx.rule("C42.7", "R1", "a cap is recorded in the database only when the grid reported success: every path to "
+                  "did_upload (BackerUpper.upload) and every path on which mkdir returns the response body that "
+                  "upload_directory reports to did_create passed a test establishing that the status of the response the cap "
+                  "is read from is a 2xx code", expected=3) as r:
+        folder = get_folder(idx)
+
+        def body_sources(fn, fl, e):
+            """The do_http(..) calls whose response body (a .read() of the response) feeds expression `e`."""
+            out = []
+            for rc in calls_feeding(fn, e):
+                if call_tail(rc) != "read" or not isinstance(rc.func, ast.Attribute):
+                    continue
+                rn = roles.node_of(fn, rc)
+                d = fl.resolve(rn, rc.func.value)
+                if isinstance(d, ast.Call) and call_tail(d) == "do_http":
+                    if not any(d is x for x in out):
+                        out.append(d)
+                elif isinstance(d, ast.Name) and len(fl.rd.get(rn.id, {}).get(d.id, ())) > 1:
+                    raise AnalysisError("cannot tell which response %s is at %s" % (src(fn, rc), fn.loc(rc)))
+            return out
+
+        def ungated(fn, fl, target, sources):
+            cfg = fn.cfg()
+            r.count(len(cfg.nodes))
+            gate = lambda n, lab: any(http_success_edge(fl, folder, fn, n, lab, d) for d in sources)
+            return find_path_avoiding(cfg, lambda x: x is target, gate_edge=gate)
+
+        fn = idx.func(TB + ":BackerUpper.upload")
+        fl = FlowNorm(fn)
+        dids = [(n, c) for n in fn.cfg().nodes for c in calls_at(n, "did_upload")]
+        if not dids:
+            raise AnchorVanished("BackerUpper.upload no longer calls did_upload")
+        for (dn, dc) in dids:
+            r.site(fn, dc, "did_upload only after a successful PUT")
+            if not dc.args:
+                raise AnalysisError("did_upload() is called without a cap at %s" % fn.loc(dc))
+            sources = body_sources(fn, fl, dc.args[0])
+            if not sources:
+                raise AnalysisError("cannot tell which HTTP response the cap recorded by %s was read from" % src(fn, dc))
+            for (n, w) in ungated(fn, fl, dn, sources):
+                r.violation(fn, fn.loc(dc), "%s records the body of the PUT response as the file's cap on a path that never "
+                            "established that the response's status is a success (2xx) code: after a failed upload the error "
+                            "text is stored for the unchanged file and every later backup reuses it instead of uploading "
+                            "(path: %s)" % (src(fn, dc), w.brief()), w)
+
+        mk = idx.func(TB + ":mkdir")
+        ud = idx.func(TB + ":BackerUpper.upload_directory")
+        creates = [c for n in ud.cfg().nodes for c in calls_at(n, "did_create")]
+        if not creates:
+            raise AnchorVanished("BackerUpper.upload_directory no longer calls did_create")
+        for c in creates:
+            r.site(ud, c, "did_create records what mkdir returned")
+            feed = [x for x in (calls_feeding(ud, c.args[0]) if c.args else []) if isinstance(x.func, ast.Name) and x.func.id == mk.name]
+            if not feed:
+                raise AnalysisError("cannot tell which call produced the cap recorded by %s" % src(ud, c))
+        fl = FlowNorm(mk)
+        rets = []
+        for n in mk.cfg().find(is_return):
+            v = n.ast.value
+            if v is None or (isinstance(v, ast.Constant) and v.value is None):
+                continue
+            sources = body_sources(mk, fl, v)
+            if sources:
+                rets.append((n, sources))
+        if not rets:
+            raise AnchorVanished("mkdir no longer returns the body of a do_http response")
+        # (named by its module: the bare name "mkdir" is also a function of three unrelated script modules)
+        r.site("%s %s" % (mk.qual, mk.loc(rets[0][0].ast)), None, "mkdir returns a cap only after a successful POST")
+        for (rn, sources) in rets:
+            for (n, w) in ungated(mk, fl, rn, sources):
+                r.violation(mk, mk.loc(rn.ast), "mkdir returns the body of the POST response as the new directory's cap on a "
+                            "path that never established that the response's status is a success (2xx) code: upload_directory "
+                            "records the error text for the directory's contents and every later backup reuses it instead "
+                            "of creating the directory (path: %s)" % w.brief(), w)
